@@ -323,7 +323,9 @@ def m_daemons(sc, rng, mi):
 def m_mass_kill(sc, rng, mi):
     v = rng.randint(3, 8)
     t = rng.choice([4, 8, 16, 24])
-    how = rng.choice(["kills", "kills", "killtime", "mixed"])
+    how = rng.choice(["kills", "kills", "killtime", "mixed", "kills", "killtime", "mixed", "killall"])
+    if how == "killall":
+        t = 48               # everybody dies: do it late, once the other motifs have had their ties
     m = sc.mutex(private=True)
     s = sc.sem(0)
     mb = sc.new("mbox")
@@ -362,7 +364,9 @@ def m_mass_kill(sc, rng, mi):
         tgt = rng.choice(names)[0]
         sc.actor("k%dj%d" % (mi, j), [("join", "@" + tgt, -1), ("lock", post), ("sleep", 1), ("unlock", post)])
     left = [nm for nm, kt in names if kt < 0]
-    if left:
+    if how == "killall":
+        sc.actor("k%dk" % mi, [("sleepu", t), ("killall",)])
+    elif left:
         rng.shuffle(left)
         nk = rng.choice([1, 1, 2]) if len(left) > 2 else 1
         for j in range(nk):
